@@ -134,8 +134,7 @@ func verifC13Ents(es []VerifC13Ent, pad *int) []*Entity {
 		if e.Ref {
 			ent.References[e.P] = e.T
 		}
-		// every version differs in serialised length from every other one of the case
-		*pad += 64
+		// every version written by one op differs in serialised length from the versions written by every other op
 		ent.Properties["v"] = strings.Repeat("x", *pad)
 		out = append(out, ent)
 	}
@@ -197,6 +196,7 @@ func VerifC13Run(c VerifC13Case, dir string) (obs VerifC13Obs) {
 	pad := 0
 	ncrash := 0
 	for _, op := range c.Ops {
+		pad += 64
 		var o VerifC13Out
 		strOut := func(r string, err error) {
 			if err != nil {
